@@ -60,7 +60,8 @@ def fill_case(rng, c, sim):
         c["induced"] = [s + [rng.choice([None, None, "label", "fn"])] for s in ind]
         w = [F(1, 4), F(1, 2), F(1), F(2), F(3)]
         c["nodew"] = [str(rng.choice(w)) for _ in range(n)]
-        c["edgew"] = [str(rng.choice(w)) for _ in c["edges"]]           # used for label and fn (symmetric for undirected)
+        c["edgew"] = [str(rng.choice(w)) for _ in c["edges"]]           # edge attribute (weight_label) and rate function, stored orientation
+        c["edgew_rev"] = [str(rng.choice(w)) for _ in c["edges"]]       # rate function in the opposite orientation (may be asymmetric)
         c["IC"] = [rng.choice(sts) for _ in range(n)]
         k = rng.randint(1, len(sts))
         c["return_statuses"] = sts[:k] if rng.random() < 0.7 else rng.sample(sts, k)
@@ -95,11 +96,12 @@ def prepare_graph(case, G, lab):
     for u in G:
         G.nodes[u]["nw"] = float(F(case["nodew"][li[u]]))
     ew = {}
-    for (u, v), w in zip(case["edges"], case["edgew"]):
+    rev = case.get("edgew_rev") or case["edgew"]
+    for (u, v), w, wr in zip(case["edges"], case["edgew"], rev):
         G.edges[lab(u), lab(v)]["ew"] = float(F(w))
         ew[(u, v)] = float(F(w))
         if not case.get("directed"):
-            ew[(v, u)] = float(F(w))
+            ew[(v, u)] = float(F(wr))        # value of the user's rate function for the opposite ordered pair
     return ew
 
 
